@@ -52,48 +52,166 @@ pub fn run(tr: &mut Tr, seed: u64, streams: usize, len: usize, shard: usize, nsh
                 // strict readers need whole words; an empty image is legal
                 let mut rd = TRd::new(tr, cfg, &pad_to(cut, 8, cfg));
                 let real_cut = rd.nbits;
-                for (i, it) in items.iter().enumerate() {
-                    if rd.dead {
-                        break;
+                // (1) sequential pass from the start (every fourth cut): everything before the cut decodes,
+                //     the first item that needs a missing bit fails
+                if (t / cut_step.max(1)) % 4 == 0 {
+                    for (i, it) in items.iter().enumerate() {
+                        if rd.dead {
+                            break;
+                        }
+                        let end = starts[i + 1];
+                        if !cfg.strict() && end > real_cut.min(cutbits) {
+                            // zero-extended: beyond the data only fixed-width operations (zeros forever)
+                            rd.read_bits(tr, 64);
+                            rd.peek_bits(tr, cfg.peek_max());
+                            rd.skip_bits(tr, 3 * cfg.w + 1);
+                            rd.read_bits(tr, 13);
+                            break;
+                        }
+                        tests += 1;
+                        distinct.insert((ci, t, end > cutbits));
+                        read_item(tr, &mut rng, &mut rd, it, None);
                     }
-                    let end = starts[i + 1];
-                    if !cfg.strict() && end > real_cut.min(cutbits) {
-                        // zero-extended: beyond the data only fixed-width operations (zeros forever)
-                        rd.read_bits(tr, 64);
-                        rd.peek_bits(tr, cfg.peek_max());
-                        rd.skip_bits(tr, 3 * cfg.w + 1);
-                        rd.read_bits(tr, 13);
-                        break;
-                    }
-                    tests += 1;
-                    distinct.insert((ci, t, end > cutbits));
-                    match it {
-                        Item::Bits { n, .. } => {
-                            if rng.random_range(0..4) == 0 && *n >= 1 && *n <= cfg.peek_max() {
-                                if rd.peek_bits(tr, *n).is_ok() {
-                                    rd.skip_bits_after_peek(tr, *n);
-                                }
-                            } else {
-                                rd.read_bits(tr, *n);
+                }
+                // (2) the items that end near the cut or cross it, each decoded with every option
+                //     the reader may use, from a fresh seek to the item's start
+                if cfg.strict() {
+                    for (i, it) in items.iter().enumerate() {
+                        let (st, end) = (starts[i], starts[i + 1]);
+                        if st >= real_cut || end + 3 * cfg.w as u64 <= real_cut {
+                            continue;
+                        }
+                        let opts: Vec<u8> = match it {
+                            Item::Code { c, .. } => crate::drivers::codes::read_opts(c, cfg),
+                            _ => vec![0],
+                        };
+                        for o in opts {
+                            if rd.dead {
+                                tr.reset();
+                                rd = TRd::new(tr, cfg, &pad_to(cut, 8, cfg));
+                            }
+                            match rd.set_bit_pos(tr, st) {
+                                Some(Out::Ok(())) => {}
+                                _ => continue,
+                            }
+                            tests += 1;
+                            distinct.insert((ci, t, end > cutbits));
+                            read_item(tr, &mut rng, &mut rd, it, Some(o));
+                            // after a successful item the next operations still see the end of the data
+                            if !rd.dead {
+                                rd.read_bits(tr, 64);
                             }
                         }
-                        Item::Unary(_) => {
-                            rd.read_unary(tr);
-                        }
-                        Item::Code { c, .. } => {
-                            let opt = rand_read_opt(&mut rng, c, cfg);
-                            rd.read_code(tr, c, opt);
-                        }
-                        Item::Bytes(bs) => {
-                            if rd.read_bytes(tr, bs.len()).is_none() {
-                                rd.skip_bits(tr, 8 * bs.len());
-                            }
-                        }
-                        Item::Flush => {}
                     }
                 }
                 rd.drop_obj(tr);
                 t += cut_step.max(1);
+            }
+        }
+    }
+    (tests, distinct.len() as u64)
+}
+
+fn read_item(tr: &mut Tr, rng: &mut SmallRng, rd: &mut TRd, it: &Item, opt: Option<u8>) {
+    let pm = rd.cfg.peek_max();
+    match it {
+        Item::Bits { n, .. } => {
+            if rng.random_range(0..4) == 0 && *n >= 1 && *n <= pm {
+                if rd.peek_bits(tr, *n).is_ok() {
+                    rd.skip_bits_after_peek(tr, *n);
+                }
+            } else {
+                rd.read_bits(tr, *n);
+            }
+        }
+        Item::Unary(_) => {
+            rd.read_unary(tr);
+        }
+        Item::Code { c, .. } => {
+            let cfg = rd.cfg.clone();
+            let o = opt.unwrap_or_else(|| rand_read_opt(rng, c, &cfg));
+            rd.read_code(tr, c, o);
+        }
+        Item::Bytes(bs) => {
+            if rd.read_bytes(tr, bs.len()).is_none() {
+                rd.skip_bits(tr, 8 * bs.len());
+            }
+        }
+        Item::Flush => {}
+    }
+}
+
+/// Codes positioned so that they end before, exactly at, or beyond the end of a strict stream:
+/// for every split point j the code starts j bits before the cut.
+pub fn crossing(tr: &mut Tr, seed: u64, shard: usize, nshards: usize) -> (u64, u64) {
+    use crate::drivers::codes::{read_opts, write_opts};
+    use dsi_bitstream::prelude::*;
+    let mut rng = SmallRng::seed_from_u64(seed ^ 0x4352);
+    let mut tests = 0u64;
+    let mut distinct: HashSet<(usize, usize, bool)> = HashSet::new();
+    let cases: Vec<(CodeSpec, Vec<u64>)> = vec![
+        (CodeSpec::simple(Fam::Gamma), vec![0, 1, 6, 22, 15, 300, 100000]),
+        (CodeSpec::simple(Fam::Delta), vec![0, 1, 6, 22, 300, 40000]),
+        (CodeSpec::k(Fam::Zeta, 3), vec![0, 1, 6, 7, 100, 511, 5000]),
+        (CodeSpec::simple(Fam::Omega), vec![0, 1, 6, 300]),
+        (CodeSpec::simple(Fam::Unary), vec![0, 3, 9]),
+        (CodeSpec::k(Fam::Zeta, 2), vec![5, 300]),
+        (CodeSpec::k(Fam::Pi, 2), vec![5, 300]),
+        (CodeSpec::k(Fam::Rice, 3), vec![5, 30]),
+        (CodeSpec::k(Fam::ExpGolomb, 2), vec![5, 300]),
+        (CodeSpec::b(Fam::Golomb, 5), vec![3, 22]),
+        (CodeSpec::simple(Fam::VByteLe), vec![5, 300]),
+    ];
+    for (ci, cfg) in all_rcfgs().iter().enumerate() {
+        if ci % nshards != shard || !cfg.strict() {
+            continue;
+        }
+        let w = cfg.w as u64;
+        let cutbits = 192u64.div_ceil(w) * w;
+        for (c, vals) in &cases {
+            for &v in vals {
+                let len = match crate::drivers::codes::enum_of(c) {
+                    Some(e) => e.len(v) as u64,
+                    None => 8,
+                };
+                for j in 0..=(len + 2).min(cutbits) {
+                    tr.reset();
+                    let ww = WRITER_WORDS[rng.random_range(0..WRITER_WORDS.len())];
+                    let mut tw = TW::new(tr, &WCfg { le: cfg.le, w: ww, backend: "vec", wrap: "none" }, 0);
+                    let start = cutbits - j;
+                    let mut left = start;
+                    while left > 0 {
+                        let k = left.min(60) as usize;
+                        tw.write_bits(tr, rng.random::<u64>() & ((1u64 << k) - 1), k);
+                        left -= k as u64;
+                    }
+                    let wo = write_opts(c);
+                    tw.write_code(tr, c, wo[rng.random_range(0..wo.len())], v);
+                    tw.write_bits(tr, u64::MAX >> 1, 63);
+                    tw.write_bits(tr, u64::MAX >> 1, 63);
+                    tw.close(tr, "flush");
+                    let img = tw.w.image();
+                    let cut: Vec<u8> = img[..(cutbits / 8) as usize].to_vec();
+                    let mut rd = TRd::new(tr, cfg, &cut);
+                    for o in read_opts(c, cfg) {
+                        if rd.dead {
+                            tr.reset();
+                            rd = TRd::new(tr, cfg, &cut);
+                        }
+                        match rd.set_bit_pos(tr, start) {
+                            Some(Out::Ok(())) => {}
+                            _ => continue,
+                        }
+                        rd.read_code(tr, c, o);
+                        if !rd.dead {
+                            // whatever follows still sees the end of the data
+                            rd.read_bits(tr, 1);
+                        }
+                        tests += 1;
+                        distinct.insert((ci, j as usize, j < len));
+                    }
+                    rd.drop_obj(tr);
+                }
             }
         }
     }
